@@ -242,6 +242,7 @@ def _s2(program, model, res):
     else:
         res.ok("C06-S2", "merged ExtendNode guarded by partition/order/reverse/windowing of both nodes and try_to_merge_ops",
                {"required": required})
+    _s2_order_sensitive(ep, g, d, merged, res)
     # the merged node keeps the *new* call's window arguments and the old node's source
     v = merged.stmt.value
     kws = {kw.arg: unparse(kw.value) for kw in v.keywords}
@@ -249,6 +250,72 @@ def _s2(program, model, res):
         res.fail_at("C06-S2", ep, "merge-source", f"merged ExtendNode source is {kws.get('source')}, expected self.sources[0]", merged.stmt)
     else:
         res.ok("C06-S2", "merged ExtendNode is rooted at self.sources[0]")
+
+
+ORDER_INSENSITIVE = {"set", "frozenset", "sorted", "len", "Counter", "OrderedSet"}
+
+
+def _s2_order_sensitive(ep, g, d, merged, res):
+    """order_by is a priority list: the merge condition must compare it as a sequence, on every accepting path.
+    Expressions feeding the guards (conditions, the locals they name, local helper functions they call) are
+    searched for (a) a direct == between order_by and self.order_by and (b) order-insensitive wrappers."""
+    exprs = []
+    for (b, _lab) in g.lexical_guards(merged):
+        exprs.append(b.cond)
+    names = {n.id for e in exprs for n in ast.walk(e) if isinstance(n, ast.Name)}
+    for n in g.stmt_nodes(("stmt",)):
+        st = n.stmt
+        if isinstance(st, ast.Assign) and len(st.targets) == 1 and isinstance(st.targets[0], ast.Name) \
+                and st.targets[0].id in names and g.dominates(n.id, merged.id):
+            exprs.append(st.value)
+    helpers = {f.name: f for f in ast.walk(ep.node) if isinstance(f, ast.FunctionDef) and f is not ep.node}
+    direct = False
+    insensitive = []
+    opaque = []
+
+    def is_ob(e, binding):
+        dn = dotted_name(e)
+        return dn in ("order_by", "self.order_by") or (dn in binding and binding[dn] in ("order_by", "self.order_by"))
+
+    def scan(e, binding):
+        nonlocal direct
+        for sub in ast.walk(e):
+            if isinstance(sub, ast.Compare) and len(sub.ops) == 1 and isinstance(sub.ops[0], ast.Eq):
+                l, r = sub.left, sub.comparators[0]
+                if is_ob(l, binding) and is_ob(r, binding):
+                    direct = True
+            if isinstance(sub, ast.Call):
+                fn = dotted_name(sub.func) or ""
+                if fn.split(".")[-1] in ORDER_INSENSITIVE and sub.args and is_ob(sub.args[0], binding):
+                    insensitive.append(unparse(sub))
+                elif fn in helpers and any(is_ob(a, binding) for a in sub.args):
+                    h = helpers[fn]
+                    b2 = {}
+                    for p, a in zip([x.arg for x in h.args.args], sub.args):
+                        if is_ob(a, binding):
+                            dn = dotted_name(a)
+                            b2[p] = binding.get(dn, dn)
+                    for st in ast.walk(h):
+                        if isinstance(st, ast.Return) and st.value is not None:
+                            scan(st.value, b2)
+                        elif isinstance(st, (ast.If, ast.Assign)):
+                            scan(st.test if isinstance(st, ast.If) else st.value, b2)
+                elif any(is_ob(a, binding) for a in sub.args) and fn not in ("isinstance",):
+                    opaque.append(unparse(sub))
+
+    for e in exprs:
+        scan(e, {})
+    if insensitive:
+        res.fail_at("C06-S2", ep, "order_by-compared-order-insensitively",
+                    f"the merge condition compares order_by through {sorted(set(insensitive))}: order_by is a sort-priority "
+                    f"list, two extends ordered by the same columns in a different priority would be merged under the second's order",
+                    merged.stmt)
+    elif direct:
+        res.ok("C06-S2", "order_by compared as a sequence (==) in the merge condition")
+    elif opaque:
+        res.abstain("C06-S2", "order_by comparison", f"compared through {opaque}: cannot see whether order-sensitive")
+    else:
+        res.fail_at("C06-S2", ep, "order_by-not-compared", "the merge condition never compares order_by with self.order_by", merged.stmt)
 
 
 # ---------------------------------------------------------------------------------------------- S3 / S4
@@ -263,7 +330,7 @@ def _arm_raises(g, b, label) -> bool:
     return False
 
 
-def _s3_s4(program, model, res):
+def _s3_s4(program, model, res, s3="C06-S3", s4="C06-S4"):
     base = model.base
     n_deleg = 0
     n_short = 0
@@ -289,7 +356,7 @@ def _s3_s4(program, model, res):
             if trivial:
                 n_deleg += 1
                 if callee.name != m.name:
-                    res.fail_at("C06-S3", m, f"delegation-target:{callee.name}",
+                    res.fail_at(s3, m, f"delegation-target:{callee.name}",
                                 f"skipping a trivial intermediate node delegates {m.name} to a different builder {callee.name}", r_stmt)
                     continue
                 if bind_problems(v, callee):
@@ -300,11 +367,11 @@ def _s3_s4(program, model, res):
                     arg_roots |= d.roots_at(node, a)
                 missing = [p for p in m.params() if p != "self" and p not in arg_roots]
                 if missing:
-                    res.fail_at("C06-S3", m, f"delegation-drops:{','.join(missing)}",
+                    res.fail_at(s3, m, f"delegation-drops:{','.join(missing)}",
                                 f"{m.name} skips a trivial intermediate node with `{unparse(v)}` but does not forward "
                                 f"parameter(s) {missing}: the simplified pipeline ignores an option the unsimplified one honours", r_stmt)
                 else:
-                    res.ok("C06-S3", f"{m.name}: delegation past a trivial node forwards every parameter",
+                    res.ok(s3, f"{m.name}: delegation past a trivial node forwards every parameter",
                            {"params": [p for p in m.params() if p != "self"]})
             else:
                 # S4: shortcut that bypasses self for a non-trivial reason (collapse through select/drop)
@@ -319,13 +386,13 @@ def _s3_s4(program, model, res):
                     if depsmod.has_root(roots, "self.column_names") and any(p in roots for p in params):
                         ok = True
                 if ok:
-                    res.ok("C06-S4", f"{m.name}: collapse `{unparse(v)}` is dominated by a raising guard on the argument and self.column_names")
+                    res.ok(s4, f"{m.name}: collapse `{unparse(v)}` is dominated by a raising guard on the argument and self.column_names")
                 else:
-                    res.fail_at("C06-S4", m, f"shortcut:{unparse(guards[-1][0].cond) if guards else 'unguarded'}",
+                    res.fail_at(s4, m, f"shortcut:{unparse(guards[-1][0].cond) if guards else 'unguarded'}",
                                 f"`{unparse(v)}` bypasses self (and its constructor's validation) without a dominating check of "
                                 f"the argument against self.column_names: the collapsed pipeline accepts steps the stepwise one rejects", r_stmt)
-    res.expect_count("C06-S3", "trivial-intermediate delegations", n_deleg, 12)
-    res.expect_count("C06-S4", "collapse shortcuts", n_short, 2)
+    res.expect_count(s3, "trivial-intermediate delegations", n_deleg, 12)
+    res.expect_count(s4, "collapse shortcuts", n_short, 2)
 
 
 # ---------------------------------------------------------------------------------------------- S5
